@@ -883,6 +883,18 @@ func (v *FV) loopHeader(fr *Frame, li *loopInfo, st *State) *State {
 	if mod != nil {
 		v.regArray("TOP", "(Array Int Int)")
 		mod["TOP"] = true
+		if mod["CALLS"] {
+			v.regArray("CALLS", fmt.Sprintf("(Array Int %s)", v.idx()))
+		}
+		if mod["ARGNN"] {
+			v.regArray("ARGNN", "(Array Int Bool)")
+		}
+		if mod["ARGV"] {
+			v.regArray("ARGV", fmt.Sprintf("(Array Int %s)", v.idx()))
+		}
+		if mod["LOCKED"] {
+			v.regArray("LOCKED", "(Array Int Bool)")
+		}
 	}
 	var frameLocs []string
 	hasFrame := false
